@@ -58,6 +58,8 @@ def Safe : Env EF → Expr EF → Prop
   | env, .div a b => Safe env a ∧ Safe env b ∧ b.eval env ≠ fin 0
   | env, .neg a => Safe env a
   | env, .prim p a => Safe env a ∧ ∀ r, a.eval env = fin r → PrimSafe p r
+  | env, .max a b => Safe env a ∧ Safe env b
+  | env, .min a b => Safe env a ∧ Safe env b
   | env, .sel _ a b => Safe env a ∧ Safe env b
   | env, .letE i v body => Safe env v ∧ Safe (env.set i (v.eval env)) body
 
@@ -123,6 +125,14 @@ theorem safe_eval_fin : ∀ (e : Expr EF) (env : Env EF), Safe env e → isFin (
       obtain ⟨x, hx⟩ := isFin_iff.mp (safe_eval_fin a env h.1)
       obtain ⟨v, hv⟩ := (prim_fin (h.2 x hx)).1
       simp [Expr.eval, hx, hv]
+  | .max a b, env, h => by
+      simp only [Expr.eval]; split
+      · exact safe_eval_fin b env h.2
+      · exact safe_eval_fin a env h.1
+  | .min a b, env, h => by
+      simp only [Expr.eval]; split
+      · exact safe_eval_fin b env h.2
+      · exact safe_eval_fin a env h.1
   | .sel c a b, env, h => by
       simp only [Expr.eval]; split
       · exact safe_eval_fin a env h.1
@@ -166,6 +176,20 @@ theorem safe_vjp_fin : ∀ (e : Expr EF) (env : Env EF), Safe env e → ∀ ct, 
       obtain ⟨d, hd⟩ := (prim_fin (h.2 x hx)).2
       simp only [Expr.vjp, hx, hd]
       exact safe_vjp_fin a env h.1 _ (by simp)
+  | .max a b, env, h, ct, hct => by
+      obtain ⟨c, rfl⟩ := isFin_iff.mp hct
+      have hw : ∀ (p q : Bool), isFin (fin c * (if p then (Num.ofInt 1 : EF) else if q then Num.ofInt 0 else Num.ofInt 1 / Num.ofInt 2)) := by
+        intro p q; have h2 : (2:ℝ) ≠ 0 := by norm_num
+        cases p <;> cases q <;> simp [EF.fin_div h2]
+      simp only [Expr.vjp]
+      exact allFin_append (safe_vjp_fin a env h.1 _ (hw _ _)) (safe_vjp_fin b env h.2 _ (hw _ _))
+  | .min a b, env, h, ct, hct => by
+      obtain ⟨c, rfl⟩ := isFin_iff.mp hct
+      have hw : ∀ (p q : Bool), isFin (fin c * (if p then (Num.ofInt 1 : EF) else if q then Num.ofInt 0 else Num.ofInt 1 / Num.ofInt 2)) := by
+        intro p q; have h2 : (2:ℝ) ≠ 0 := by norm_num
+        cases p <;> cases q <;> simp [EF.fin_div h2]
+      simp only [Expr.vjp]
+      exact allFin_append (safe_vjp_fin a env h.1 _ (hw _ _)) (safe_vjp_fin b env h.2 _ (hw _ _))
   | .sel c a b, env, h, ct, hct => by
       simp only [Expr.vjp]
       refine allFin_append (safe_vjp_fin a env h.1 _ ?_) (safe_vjp_fin b env h.2 _ ?_)
